@@ -332,6 +332,14 @@ def addToSetField (spec : Val) (d : Val) (field : String) (value : Val) : R Val 
           let r ← addToSetValue cur value
           pure (.doc (dset last r ps))
         | .arr _ => unmodelled
+        | .str p =>
+          -- `last in subdocument` is a substring test: when it fails the value to add is computed
+          -- from an empty list (the clause next to `$each` is refused here) before the assignment
+          -- `subdocument[last] = …` raises TypeError; when it holds, `subdocument[last]` raises
+          if isInfixChars last.toList p.toList then .error .typeErr
+          else do
+            let _ ← addToSetValue (.arr []) value
+            .error .typeErr
         | _ => .error .typeErr) true parts true spec d
 
 /-- remove the first element `==` to `o` (`list.remove`) -/
